@@ -8,6 +8,9 @@ CHECKS = {
  "C10": ("other", "Predicate-table equality: every branch condition of the RDH sanity validators, normalised to wire bits with accessors inlined and validator constants propagated from all construction sites, equals the documented rule table; the running checker's per-step transition function (guards, compared fields, state updates, update ordering) equals the documented one; reports carry the packet's own offset and the running check is guarded by the mode flag. Holds for all header values at once; does not decide long-history behaviour beyond the step function.",
          "Trusted: rustc nightly front end, /verif/driver, fpv.thir normal-form evaluator, oracles/rdh_rules.json (written from doc/checks_list.md).",
          "THIR predicate normal forms (bit-level dataflow over the typed syntax tree) compared with a frozen rule table; MIR dominance for ordering/guards", "DESIGN.md §3 C10"),
+ "C11": ("proof", "For each of the four status-word validators the error predicate is extracted from the typed syntax tree, accessors and from_buf byte placement are inlined, and its normal form over the 80 wire bits is compared with the protocol table (identifier constant, reserved mask, word-specific rule): equality of normal forms holds for all 2^80 values at once. Data-word rules (valid ID set, IB/OB lane maps, lane-active bit, connector-input limit, barrel dispatch) are decided on the full u8 identifier domain by constant folding of the extracted expressions. Obligations = one per documented condition/field/placement; all must be discharged.",
+         "Trusted: rustc nightly front end, /verif/driver, fpv.thir (bit-level normal forms), oracles/its_words.json and dw_ids.json. Assumes little-endian target (read from the compiler session) and that packed layout = wire layout, which the placement obligations establish.",
+         "bit-level abstract evaluation of THIR predicates to a normal form; equality with protocol mask tables; finite-domain constant folding for identifier maps", "DESIGN.md §3 C11"),
 }
 
 NOT_APPLICABLE = {
